@@ -167,7 +167,9 @@ def run(ctx):
                 sig_ops.append(("jws.sig", {"jws": {"payload": G.b64u(pay)}, "sig": {"protected": {"alg": alg, "kid": name}}, "jwk": key,
                                             "rnd": [rng.randbytes(32).hex()], "_expect_ok": True, "_alg": alg, "_name": name}))
     # tokens whose protected header is empty / absent: the algorithm is named by the unprotected header or the key
-    for name, alg in (("oct-32", "HS256"), ("EC-P256", "ES256"), ("RSA-2048", "RS256"), ("oct-64", "HS512")):
+    # (every algorithm: what a verifier does with a token that names NO algorithm depends on which algorithm a lookup
+    # without a name would hit, which is an artefact of registration order)
+    for name, alg in [(n_, a_) for n_ in ("oct-64", "EC-P256", "EC-P384", "EC-P521", "EC-K256", "RSA-2048") for a_ in G.algs_for(n_, pool[n_])]:
         for tmpl in ({"header": {"alg": alg}}, {"header": {"alg": alg, "kid": name}, "protected": {}}):
             sig_ops.append(("jws.sig", {"jws": {"payload": G.b64u(b"unprotected alg")}, "sig": tmpl, "jwk": pool[name],
                                         "rnd": [rng.randbytes(32).hex()], "_expect_ok": True, "_alg": alg, "_name": name}))
